@@ -87,7 +87,12 @@ func ChildMain(args []string) {
 				seed, _ := strconv.ParseInt(f[2], 10, 64)
 				sc := GenW(f[1], seed)
 				h := RunW(ChildServer(), sc)
-				o.Req, o.Desc, o.Viol, o.Kinds, o.N = h.Request(), sc.Describe(), h.Viol, h.Kinds, h.NCalls
+				o.Desc, o.Viol, o.Kinds, o.N = sc.Describe(), h.Viol, h.Kinds, h.NCalls
+				if h.Searchable() {
+					o.Req = h.Request()
+				} else {
+					o.Req = fmt.Sprintf("(history of %d items: direct oracle only)", len(h.Items))
+				}
 			case f[0] == "op":
 				o.Ans = RunOp(strings.TrimSpace(strings.TrimPrefix(line, "op")))
 			default:
